@@ -115,7 +115,7 @@ def _gen_loop(rng, adversarial=False):
 
 def mutate_adversarial(rng, stages, allocs, stride):
     S = len(stages)
-    m = rng.choice(["acc_producer", "ww", "nonadjacent", "alias", "consumer_writes", "two_readers", "arg_buffer", "stride0"])
+    m = rng.choice(["acc_producer", "ww", "nonadjacent", "skip", "skip", "alias", "consumer_writes", "two_readers", "arg_buffer", "stride0"])
     gens = [(k, o) for k, st in enumerate(stages) for o in st if o["kind"] == "generic"]
     if m == "acc_producer" and gens:
         k, o = rng.choice(gens)
@@ -130,6 +130,16 @@ def mutate_adversarial(rng, stages, allocs, stride):
                 stages[k].append({"vid": 90 + k, "kind": "copy", "ins": [("F", 3)], "outs": [b], "acc": False})
     elif m == "nonadjacent" and S >= 3:
         stages[S - 1].append({"vid": 95, "kind": "generic", "ins": [stages[0][0]["outs"][0]], "outs": [("T", 2, stride)], "acc": False})
+    elif m == "skip" and S >= 3:
+        # the buffer produced by stage 0 is consumed by stage 2 only
+        b = stages[0][0]["outs"][0]
+        if b[0] == "F" and stages[1][0]["ins"][0] == b:
+            stages[1][0]["ins"][0] = ("T", 2, stride) if ("T", 2, stride) not in [x for o in stages[1] for x in o["ins"] + o["outs"]] else ("F", 2)
+            tgt = stages[2][0]
+            if b not in tgt["ins"] + tgt["outs"] and tgt["kind"] == "generic":
+                tgt["ins"] = tgt["ins"] + [b]
+            elif b not in [x for o in stages[2] for x in o["ins"] + o["outs"]]:
+                stages[2].append({"vid": 94, "kind": "generic", "ins": [b], "outs": [("F", allocs[-1])], "acc": False})
     elif m == "alias":
         stages[S - 1].append({"vid": 96, "kind": "generic", "ins": [("F", 0)], "outs": [("T", 2, stride)], "acc": False})
         stages[0].append({"vid": 97, "kind": "copy", "ins": [("T", 2, stride)], "outs": [("T", 0, stride)], "acc": False})
@@ -465,7 +475,11 @@ Definition l2_code (p : pipe) (ds : list Z) (sq pp : list (list mop)) : Z :=
   (if all_drf pp then 0 else 1) + (if same_result obs sq pp then 0 else 2) + (if within allowed pp then 0 else 4).
 (* class of the input: 1 = small_trip, 2 = not safe_pipe, 0 = inside the proved domain *)
 Definition l2_class (p : pipe) (ds : list Z) (lb st ub : Z) : Z :=
-  if small_trip (nstages p) lb ub st then 1 else if safe_pipe p ds then 0 else 2.
+  match (if recognised p lb st then dups p else Some []) with
+  | Some ds' => if negb (list_eqb Z.eqb ds ds') then 0   (* the pass duplicated something else than it should: no excuse *)
+                else if small_trip (nstages p) lb ub st then 1 else if safe_pipe p ds then 0 else 2
+  | None => 0                                            (* the pass should have refused this loop *)
+  end.
 Definition l2_eval (c : pipe * Z * Z * option (list Z) * list (Z * list (list mop) * list (list mop))) : list Z :=
   match c with (p, lb, st, rd, runs) =>
     match rd with
